@@ -9,6 +9,8 @@ pub mod verif {
     pub mod bb_graph;
     pub mod bb_oneshot;
     pub mod cli;
+    pub mod fuzz;
+    pub mod fuzz_driver;
     pub mod graph;
     pub mod hooks;
     pub mod inc_config;
